@@ -198,7 +198,7 @@ class DictArray(StorageBase):
         """Load the dict storage from disk."""
         if self.folder is None:  # pragma: no cover
             return
-        if not self.folder.exists():
+        if not self._path().exists():
             return
         self._dict.update(load(self._path()))  # keep the (possibly shared) mapping
 
